@@ -109,13 +109,21 @@ pub fn classify(type_name: &'static str, loc: &Location) -> &'static str {
     else if type_name.contains("VecDeque<") && type_name.contains("JobQueue") { "sched" }
     else if type_name.contains("SchedulerThread") { "threads" }
     else if type_name == "usize" { "maxt" }
-    else if type_name == "bool" { if file.ends_with("core.rs") { "busy" } else { "ready" } }
+    else if type_name == "bool" { if file.ends_with("core.rs") || source_line_mentions(loc, "is_busy") { "busy" } else { "ready" } }
     else if type_name.contains("Waker, core::task::wake::Waker") { "dbl" }
     else if file.ends_with("pipe.rs") {
         if type_name.contains("PipeContext") { "pwaker" } else { "pipe" }
     }
     else if file.ends_with("desync_scheduler.rs") { "sres" }
     else { "other" }
+}
+
+/// True if the source line of a creation site mentions `what` (tells the busy flag made by Scheduler::spawn_thread from the ready flag
+/// of sync_background, which are both a Mutex<bool> created in desync_scheduler.rs)
+fn source_line_mentions(loc: &Location, what: &str) -> bool {
+    std::fs::read_to_string(loc.file()).ok()
+        .and_then(|text| text.lines().nth(loc.line() as usize - 1).map(|line| line.contains(what)))
+        .unwrap_or(false)
 }
 
 fn short_loc(loc: &Location) -> String {
